@@ -64,6 +64,7 @@ SweepTags(e) ==
   FoldLeft(LAMBDA acc, k : acc \o NameTags(e, k), <<>>, [k \in 1..Len(TNames) |-> k])
   \o (IF e.obs.lres # "ok" \/ Listed(e) # ListSpec(vchain', Cont) THEN <<"list:union">> ELSE <<>>)
   \o (IF Len(e.obs.lstx) # 0 THEN <<"list:foreign">> ELSE <<>>)
+  \o (IF "panics" \in DOMAIN e.obs /\ Len(e.obs.panics) # 0 THEN <<"crash:" \o e.obs.panics[1]>> ELSE <<>>)
 ChainPairs(ch) == [i \in 1..Len(ch) |-> <<ch[i].a, ch[i].p>>]
 Bag(sq)        == [x \in {sq[i] : i \in 1..Len(sq)} |-> Cardinality({i \in 1..Len(sq) : sq[i] = x})]
 OpTags(e) ==
